@@ -315,7 +315,7 @@ def merge(results):
 
 
 def load_known():
-    p = os.path.join(HERE, "known_findings.json")
+    p = os.environ.get("VERIF_KNOWN_FILE") or os.path.join(HERE, "known_findings.json")   # override: development only
     if not os.path.exists(p):
         return []
     return json.load(open(p)).get("findings", [])
@@ -477,7 +477,7 @@ def main(module, argv=None):
                 violations.append(vio)
             else:
                 todo.append((d, vio))
-        cap = 48 if tier == "quick" else 400
+        cap = 48 if tier == "quick" else 2500
         if len(todo) > cap:
             inconclusive.append("%d worker deaths; only the first %d were re-run alone" % (len(todo), cap))
         from concurrent.futures import ThreadPoolExecutor
@@ -497,7 +497,7 @@ def main(module, argv=None):
                 except vbuild.BuildError:
                     pass
             return run_alone(modname, d["variant"], tier, seed, d["case"], builds[d["variant"]], tmo, workdir)
-        with ThreadPoolExecutor(max_workers=min(12, max(1, len(todo[:cap])))) as ex:
+        with ThreadPoolExecutor(max_workers=min(14, max(1, len(todo[:cap])))) as ex:
             confirmations = list(ex.map(confirm, todo[:cap]))
         for (d, vio), r in zip(todo[:cap], confirmations):
             if r["status"] == "ok":
